@@ -22,6 +22,7 @@ def run(chk):
     r04c(chk, 'R05.f')
     r05g(chk, tt)
     r05h(chk)
+    r05i(chk, thorough=chk.tier == 'thorough')
 
 
 def r05a(chk, rid='R05.a'):
@@ -392,3 +393,143 @@ def r05h(chk, rid='R05.h'):
                     if isinstance(got, Raised) or bool(got) != spec(t, p_, s_):
                         bad.append(f'{name}({t!r}, {p_}, {s_!r}) gives {got!r}')
         chk.ob(rid, TOK, name, f'all {n} cases agree with the slice comparison it stands for', not bad, f'{len(bad)} differ, e.g. {bad[:2]}: the end-of-input completion of strings and comments fires in the middle of the text (or not at its end)')
+
+
+PIECES = ['a', 'B1', '-x', ' ', '\n', '\t', '\r\n', '\f', ';', '{', '}', ':', '(', ')', ',', '.', '+', '1', '.5', '1px', '50%', '"s"', "'s'", '"a\\\nb"', '"a\nb"',
+          '/*c*/', '/*c\nd*/', '@media', '@charset', '@charset ', '@CHARSET ', '@charset\t', '@charset\n', '@import', '@x', '#h', 'f(', 'url(x)', 'url( "x" )', 'U+26', '~=', '|=', '<!--', '-->',
+          '\\41 ', '\\41\n', 'a\\\n', '@', '\\', '!important', '\xe9', 'and(', 'or(', '"open', '/*open', 'url(open', '"open\n', '/*open\n']
+# pieces that occur in every thorough triple position; the quick tier uses all pairs
+CORE = ['a', ' ', '\n', ';', '"a\\\nb"', '/*c\nd*/', '@charset ', '@charset\t', '@charset\n', '@x', '\\41\n', 'url( "x" )', '"open', '/*open\n', 'f(', '1px']
+RAW_KINDS = ('S', 'CHAR', 'NUMBER', 'PERCENTAGE', 'ATKEYWORD', 'CHARSET_SYM', 'IMPORT_SYM', 'MEDIA_SYM', 'PAGE_SYM', 'NAMESPACE_SYM', 'FONT_FACE_SYM', 'VARIABLES_SYM',
+             'CDO', 'CDC', 'INCLUDES', 'DASHMATCH', 'PREFIXMATCH', 'SUFFIXMATCH', 'SUBSTRINGMATCH', 'BOM', 'IMPORTANT_SYM')
+
+_TOKEVAL = {}
+
+
+def _tokenizer_model(repo):
+    """Tokenizer.tokenize as an evaluable tree whose yields also report the running offset, with the
+    matcher table compiled from MACROS/PRODUCTIONS the way Tokenizer.__init__ does (TokTables)."""
+    import copy
+    import re
+
+    from sa.absint import Record
+
+    from .tables import TokTables
+
+    tt = TokTables(repo)
+    tm = repo.mod(TOK)
+    fn = copy.deepcopy(tm.get('Tokenizer.tokenize'))
+    n = 0
+    for x in ast.walk(fn):
+        if isinstance(x, ast.Yield) and isinstance(x.value, ast.Tuple) and len(x.value.elts) == 4:
+            x.value.elts.append(ast.Name(id='pos', ctx=ast.Load()))
+            n += 1
+    if n < 4:
+        raise AnalysisError('Tokenizer.tokenize: token yields not found')
+    ast.fix_missing_locations(fn)
+    matches = [(nm, re.compile(tt.full(nm), tt.flags).match) for nm in tt.names()]
+    pm = repo.mod(PRODS)
+    consts = {}
+    for st in pm.get('CSSProductions').body:
+        if isinstance(st, ast.Assign) and isinstance(st.targets[0], ast.Name):
+            try:
+                consts[st.targets[0].id] = ast.literal_eval(st.value)
+            except ValueError:
+                pass
+    by = dict(matches)
+    return fn, tm, matches, Record(**consts), by
+
+
+def tokenize_text(repo, text_, fullsheet=True, comments=True):
+    from sa.absint import Evaluator, Record
+
+    key = id(repo)
+    if key not in _TOKEVAL:
+        _TOKEVAL[key] = _tokenizer_model(repo)
+    fn, tm, matches, cp, by = _TOKEVAL[key]
+    me = Record(tokenmatches=matches, _doComments=comments, _pushed=[], commentmatcher=by['COMMENT'], urimatcher=by['URI'])
+    return Evaluator(fn, intrinsics={'CSSProductions': cp, 'sys': Record(maxunicode=0x10FFFF)}, module=tm, cls='Tokenizer').run(self=me, text=text_, fullsheet=fullsheet)
+
+
+def _position_problems(repo, text_):
+    """Problems of the token stream of `text_` against the reference: offsets tile the text, line = 1 + line
+    feeds before the token, column = distance from the last line feed (a leading BOM has no width)."""
+    from sa.absint import Raised
+
+    out = []
+    for full in (True, False):
+        toks = tokenize_text(repo, text_, fullsheet=full)
+        if isinstance(toks, Raised):
+            return [f'raises {toks!r}']
+        prev = 0
+        for i, t in enumerate(toks):
+            name, value, line, col, pos = t
+            if pos < prev or (i and pos == prev and toks[i - 1][0] != 'BOM' and name != 'EOF') or (pos > len(text_) and name != 'EOF'):
+                out.append(f'{name} {value!r} starts at offset {pos} after a token at {prev}: the spans do not tile the text')
+                break
+            prev = pos
+            wl = 1 + text_.count('\n', 0, pos)
+            last = text_.rfind('\n', 0, pos)
+            wc = pos - last if last >= 0 else pos + 1
+            if name == 'EOF':
+                break  # the end marker has no first character; only its place at the end is checked below
+            if (line, col) != (wl, wc):
+                out.append(f'{name} {value!r} at offset {pos} is reported at {line}:{col}, it stands at {wl}:{wc}')
+                break
+            nxt = toks[i + 1][4] if i + 1 < len(toks) else len(text_)
+            span = text_[pos:nxt]
+            completed = full and nxt == len(text_) and (i + 1 == len(toks) or toks[i + 1][0] == 'EOF')
+            if name in RAW_KINDS and not completed and value != span:
+                out.append(f'{name} {value!r} at offset {pos} covers {span!r}: the value is not the text of the token')
+                break
+        if full:
+            if not toks or toks[-1][0] != 'EOF' or toks[-1][4] < len(text_) or [t for t in toks[:-1] if t[0] == 'EOF']:
+                out.append(f'the end marker stands at offset {toks[-1][4] if toks else None} of {len(text_)}')
+    return out
+
+
+def _pos_job(args):
+    root, texts = args
+    from sa.core import Repo
+
+    repo = Repo(root)
+    res = []
+    for t in texts:
+        p = _position_problems(repo, t)
+        if p:
+            res.append((t, p[0]))
+    return res
+
+
+def r05i(chk, rid='R05.i', thorough=False):
+    chk.rule(rid, 'tiling and positions of the whole tokenizer, decided by evaluation: Tokenizer.tokenize is evaluated on its own syntax tree - its yields extended by the running offset, its matcher table compiled from MACROS and PRODUCTIONS the way the constructor does - on every concatenation of two (thorough tier: also three) pieces from a list of token texts that contains every line-break convention, escaped and raw line breaks inside strings and comments, escapes ended by a line feed, the @charset forms, and the constructs that are completed at the end of input, in full-sheet and fragment mode: offsets increase and end at the length of the text, every token reports line = 1 + line feeds before it and column = distance from the last line feed (the byte order mark production is left out: it is matched against undecoded bytes), and the value of every kind that is not decoded equals the text it covers')
+    chk.assume('R05.i: position bookkeeping is per token and depends on the matched text only (R05.a), so all pairs / triples of pieces that contain every way a token can hold a line break exercise it; the regular expression engine is the host\'s')
+    import itertools
+    import multiprocessing as mp
+
+    texts = [a + b for a, b in itertools.product(PIECES, repeat=2)] + list(PIECES)
+    if thorough:
+        texts += [a + b + c for a in CORE for b in PIECES for c in CORE]
+    texts = sorted(set(texts))
+    root = chk.repo.root
+    jobs = 12 if thorough else 4
+    chunks = [(root, texts[i::jobs * 4]) for i in range(jobs * 4)]
+    if len(texts) < 3000:
+        raise AnalysisError('R05.i: corpus too small')
+    ctx = mp.get_context('fork')
+    with ctx.Pool(jobs) as pool:
+        res = [x for part in pool.map(_pos_job, chunks) for x in part]
+    chk.extra['tokenizer_position_texts'] = len(texts)
+    # group by the kind of problem so that one cause is one finding
+    groups = {}
+    for t, p in sorted(res, key=lambda x: (len(x[0]), x[0])):
+        kind = 'tile' if 'tile' in p or 'end marker' in p else 'position' if 'is reported at' in p else 'value' if 'covers' in p else 'raise'
+        first = p.split(' ')[0]
+        groups.setdefault((kind, first), []).append((t, p))
+    labels = {'tile': 'token spans tile the text', 'position': 'tokens report the line and column of their first character', 'value': 'the value of a token that is not decoded is the text it covers', 'raise': 'tokenising does not raise'}
+    for kind, label in labels.items():
+        mine = {k: v for k, v in groups.items() if k[0] == kind}
+        if not mine:
+            chk.ob(rid, TOK, 'Tokenizer.tokenize', f'{label} ({len(texts)} texts)', True)
+        for (k, first), v in sorted(mine.items()):
+            chk.ob(rid, TOK, 'Tokenizer.tokenize', f'{label}: {first} tokens', False, f'{len(v)} texts, e.g. {v[0][0]!r}: {v[0][1]}')
